@@ -29,7 +29,7 @@ void inst(rgb8_view_t const& a, rgb8_view_t const& b, gray16_view_t const& c, gr
   m = m * matrix3x2<double>::get_translate(p) * matrix3x2<double>::get_scale(p) * matrix3x2<double>::get_scale(2.0);
   resample_pixels(a, b, m, bilinear_sampler()); resample_pixels(c, d, m, nearest_neighbor_sampler());
   resize_view(a, b, bilinear_sampler()); resample_subimage(a, b, 0., 0., 4., 4., 0.1, nearest_neighbor_sampler());
-  matrix3x2<double> i = inverse(m); point<double> q = p * i; q = transform(m, q); (void)q;
+  matrix3x2<double> i = inverse(m); point<double> q = p * i; q = transform(m, q); (void)q; i *= m;
 }
 // signed destination channels: the accumulator can be negative
 // packed and bit-aligned channels are integral too (their value type is a class: std::numeric_limits knows nothing about it)
@@ -53,7 +53,7 @@ def run(rep):
     open(src, "w").write(DRIVER)
     d = C.astdump(src, os.path.join(wd, "c17.json"),
                   ["^boost::gil::sample$", "^boost::gil::resample_pixels$", "^boost::gil::resample_subimage$", "^boost::gil::resize_view$",
-                   "^boost::gil::operator\\*$", "^boost::gil::inverse$", "^boost::gil::transform$", "^boost::gil::matrix3x2::get_(rotate|translate|scale)$",
+                   "^boost::gil::operator\\*$", "^boost::gil::inverse$", "^boost::gil::transform$", "^boost::gil::matrix3x2::get_(rotate|translate|scale)$", "^boost::gil::matrix3x2::operator\\*=$", "^boost::gil::matrix3x2::operator=$",
                    "^boost::gil::cast_channel_fn::", "^boost::gil::cast_pixel$"])
     fns = d["functions"]
     rep.units.append("c17_driver.cpp: %d instantiated functions" % len(fns))
@@ -449,6 +449,83 @@ def affine(rep, fns):
             rep.ok("A2-composition", "(p*m1)*m2 == p*(m1*m2)", [repr(p) for p in prod])
         else:
             rep.violation("A2-composition", "A2:matrix*matrix", W + "affine.hpp", {"entries": [repr(p) for p in prod], "lhs": [repr(v) for v in lhs], "rhs": [repr(v) for v in rhs]})
+    # ---- A5 compound assignment: m1 *= m2 leaves m1*m2 in m1 -- the statements are executed symbolically in order, so an entry that reads a field the
+    # same function has already overwritten is seen as what it is
+    rep.rule("A5 matrix3x2::operator*=: after the body every field of *this equals the entry of (*this)*m that A2 extracted (sequential symbolic execution of the "
+             "assignments over polynomials, or the delegation `*this = *this * m` to the checked operator* and a field-wise operator=)")
+    cm = [f for f in fns if f["name"] == "boost::gil::matrix3x2::operator*=" and f.get("body") is not None]
+    asg = [f for f in fns if f["name"] == "boost::gil::matrix3x2::operator=" and f.get("body") is not None]
+    if cm and len(prod) == 6:
+        f5 = cm[0]
+        rep.count("obligations:A5")
+        mname = f5["params"][0]["name"]
+        env = {k: A("m1." + k) for k in "abcdef"}
+        loc = {}
+        unknown = []
+
+        def ev(n):
+            n = R.strip(n)
+            while isinstance(n, dict) and n.get("k") in ("ImplicitCast", "ExplicitCast", "Paren", "FunctionalCast"):
+                n = R.strip(n.get("e"))
+            if not isinstance(n, dict):
+                raise ValueError("empty")
+            k = n.get("k")
+            if k == "Binary" and n.get("op") in ("+", "-", "*"):
+                l, r = ev(n["l"]), ev(n["r"])
+                return l + r if n["op"] == "+" else l - r if n["op"] == "-" else l * r
+            if k == "Unary" and n.get("op") == "-":
+                return -ev(n["e"])
+            if k == "Member" and n.get("name") in env:
+                bn = n.get("base")
+                base = R.key(bn) if isinstance(bn, dict) else "this"
+                if base in ("this", "(*this)", "This", ""):
+                    return env[n["name"]]
+                if base == mname:
+                    return A("m2." + n["name"])
+            if k == "DeclRef" and n.get("id") in loc:
+                return loc[n["id"]]
+            if k in ("Int", "Float") or "const" in n:
+                return Poly.const(float(n.get("const", n.get("v", 0))))
+            raise ValueError(R.key(n)[:60])
+        final = None
+        body = R.strip(f5["body"])
+        try:
+            for st in body.get("c", []):
+                st = R.strip(st)
+                kk = st.get("k")
+                if kk == "Decl":
+                    for dd in st["decls"]:
+                        if dd.get("init") is not None:
+                            loc[dd["id"]] = ev(dd["init"])
+                elif kk == "Assign" and st.get("op") == "=":
+                    l = R.strip(st["l"])
+                    if l.get("k") == "Member" and l.get("name") in env:
+                        env[l["name"]] = ev(st["r"])
+                    else:
+                        raise ValueError("assignment to " + R.key(l)[:40])
+                elif kk == "Call" and st.get("op") == "=" and re.fullmatch(r"\(?\*?this\)?\.operator=\(\(?\(?\*this\)? \* %s\)?\)|\(\*this\) = \(\(?\*this\)? \* %s\)" % (re.escape(mname), re.escape(mname)), R.key(st)) or \
+                        (kk == "Call" and R.key(st).replace(" ", "") in ("(*this)=((*this)*%s)" % mname, "this.operator=(((*this)*%s))" % mname, "this.operator=((*this)*%s)" % mname, "((*this)=((*this)*%s))" % mname)):
+                    # delegation: the product is A2's, the assignment must copy field by field
+                    ok_asg = bool(asg) and sorted(R.key(x) for x, _ in R.find(asg[0]["body"], lambda y: y.get("k") == "Assign")) == sorted("(%s = %s.%s)" % (c_, asg[0]["params"][0]["name"], c_) for c_ in "abcdef")
+                    if not ok_asg:
+                        raise ValueError("operator= is not a field-wise copy")
+                    env = dict(zip("abcdef", [R.poly_of(a_, lambda s_: s_.replace(n1 + ".", "m1.").replace(n2 + ".", "m2.")) for a_ in args]))
+                elif kk == "Return":
+                    final = dict(env)
+                else:
+                    raise ValueError("statement %s" % R.key(st)[:60])
+        except ValueError as e_:
+            unknown.append(str(e_))
+        if unknown or final is None:
+            rep.incon("A5-compound", "A5:matrix3x2::operator*=", {"unrecognised": unknown or "no return"})
+        else:
+            diff = {c_: repr(final[c_] - P[c_]) for c_ in "abcdef" if not final[c_] == P[c_]}
+            if diff:
+                rep.violation("A5-compound", "A5:matrix3x2::operator*=", R.fn_where(f5), {"fields that are not the entry of (*this)*m": diff,
+                              "example": "get_translate(3,0) *= get_rotate(r): f comes out as e'*sin(r) with the already updated e' instead of 3*sin(r)"})
+            else:
+                rep.ok("A5-compound", "A5:matrix3x2::operator*=", "all six fields equal the product's entries")
+    rep.floor("obligations:A5", 1)
     # ---- A3 inverse
     mn = inv["params"][0]["name"]
     det = None
